@@ -1,7 +1,8 @@
 //! C15: the real `thread_manager::run` with a fault injected into one worker (cfg-gated fault
 //! points) or a real cause of death; how long until run() returns.  One scenario per process,
 //! inside a private mount namespace (the daemon uses /var/run/clockbound/shm and chronyd's socket).
-//!   thr <point|unwritable-segment> <nth> <0 = panic | 1 = return> [<chronyd: 0 = absent | 1 = hung | 2 = answers once | 3 = answers after 150 ms | 4 = absent, and the segment file locked by another process>
+//!   thr <point|unwritable-segment> <nth> <0 = panic | 1 = return> [<chronyd: 0 = absent | 1 = hung | 2 = answers once | 3 = answers after 150 ms | 4 = absent, and the segment file locked by another process
+//!                                                 | 5 = answers at once, never with tracking data | 6 = answers with a datagram that is no reply>
 //!       [<delay point> <nth> <ms>]]
 //! chronyd answers once: the first request gets tracking data, every later one a well-formed reply
 //! without tracking data (so the poller reports "not responding, within the grace period").
@@ -31,7 +32,10 @@ pub fn run(toks: &[&str]) -> String {
     };
     // 2: answers once, then refuses; 3: answers every request, each time after 150 ms (a loaded host)
     let slow = toks.len() > 3 && p::<i64>(toks[3]) == 3;
-    let answering = toks.len() > 3 && (p::<i64>(toks[3]) == 2 || slow);
+    // 5: answers every request at once with a well-formed reply that carries no tracking data; 6: with a datagram that is no reply at all
+    let never = toks.len() > 3 && p::<i64>(toks[3]) == 5;
+    let garbage = toks.len() > 3 && p::<i64>(toks[3]) == 6;
+    let answering = toks.len() > 3 && (p::<i64>(toks[3]) == 2 || slow || never || garbage);
     if answering {
         let _ = std::fs::create_dir_all("/var/run/chrony");
         let _ = std::fs::remove_file("/var/run/chrony/chronyd.sock");
@@ -59,7 +63,11 @@ pub fn run(toks: &[&str]) -> String {
                 if slow {
                     std::thread::sleep(Duration::from_millis(150));
                 }
-                let reply = if n == 0 || slow {
+                if garbage {
+                    let _ = srv.send_to(&[0x06, 0x02, 0x00, 0x21, 0xde, 0xad, 0xbe, 0xef, 0x00, 0x01], &path);
+                    continue;
+                }
+                let reply = if (n == 0 && !never) || slow {
                     let now = std::time::SystemTime::now().duration_since(std::time::UNIX_EPOCH).unwrap();
                     let t = crate::bound::mk_tracking(7, 0, now.as_secs() as i64, now.subsec_nanos(), 0, 0, 0, 4 << 25 | 1 << 23);
                     Reply { status: Status::Success, cmd: 33, sequence: req.sequence, body: ReplyBody::Tracking(t) }
